@@ -110,6 +110,11 @@ func judgeName(c *Ctx, k nameCase) {
 		if str != k.Name || cfg.Raw != k.Name {
 			r.Violate("C15|NewRawSuite|name-not-reported|", "a suite instantiated from a string does not report that string as its name", "name", k, k.Name, fmt.Sprintf("String()=%q Config().Raw=%q", str, cfg.Raw))
 		}
+		// lookup by name must agree with instantiation by name: the suite it returns is the suite of that name, so it
+		// carries the name (a nameless copy derives other codes than the suite of the same name)
+		if cfg2.Raw != k.Name || cfg2.String() != k.Name {
+			r.Violate("C15|SuiteConfigFromRaws|name-not-reported|", "lookup by name returns the suite without its name, so it disagrees with instantiation by name (and derives other codes)", "name", k, k.Name, fmt.Sprintf("Raw=%q String()=%q", cfg2.Raw, cfg2.String()))
+		}
 		if !known {
 			r.Violate("C15|IsKnownSuite|disagrees-with-list|", "an advertised name is not known to the known-suite test", "name", k, "true", "false")
 		}
@@ -342,6 +347,15 @@ func repeatedTokenStrings(emit func(name, kind string)) {
 	}
 }
 
+// signedNumberStrings: a numeric field of the name written with a sign. The RFC 6287 naming scheme writes plain decimal
+// numbers; "+6" is not one of its spellings even though a lenient integer parser reads it as 6.
+func signedNumberStrings(emit func(name, kind string)) {
+	for _, n := range []string{"OCRA-1:HOTP-SHA1-+6:QN08", "OCRA-1:HOTP-SHA256-+8:C-QN10-PSHA1", "OCRA-1:HOTP-SHA512-+10:QH10", "OCRA-1:HOTP-SHA1-6:QN08-T+1M", "OCRA-1:HOTP-SHA1-6:QN08-T+30S",
+		"OCRA-1:HOTP-SHA1-6:C-QA08-PSHA256-S064-T+2H", "OCRA-1:HOTP-SHA1-+06:QN08", "OCRA-1:HOTP-SHA1-6:QN08-T+01M"} {
+		emit(n, "malformed:signed-number")
+	}
+}
+
 func malformedStrings(emit func(name, kind string)) {
 	good := []string{"OCRA-1:HOTP-SHA1-6:QN08", "OCRA-1:HOTP-SHA256-8:C-QN10-PSHA1", "OCRA-1:HOTP-SHA512-8:QN08-T1M", "OCRA-1:HOTP-SHA1-6:C-QN08-PSHA1-S-T1"}
 	for _, g := range good {
@@ -448,6 +462,7 @@ func init() {
 			largeNumberStrings(func(n, class string) { cases = append(cases, nameCase{Name: n, Class: class}) })
 			unicodeFoldStrings(func(n, class string) { cases = append(cases, nameCase{Name: n, Class: class}) })
 			repeatedTokenStrings(func(n, class string) { cases = append(cases, nameCase{Name: n, Class: class}) })
+			signedNumberStrings(func(n, class string) { cases = append(cases, nameCase{Name: n, Class: class}) })
 			runArch386(c)
 			bitFlipStrings(func(n, class string) {
 				if !seen[n] {
